@@ -94,6 +94,12 @@ type VC struct {
 	defOrder     []string
 	frameActive  bool
 	alloc0       *Term
+	rowCopies    map[string]rowCopyDef
+	specCache    map[string][]*Term
+	quantDepth   int
+	wrapFns      map[string]bool
+	boundMemo    map[string]interval
+	varBounds    map[string]interval
 }
 
 func newVC(prog *Prog, fn *FuncInfo, mode Mode) *VC {
@@ -102,7 +108,7 @@ func newVC(prog *Prog, fn *FuncInfo, mode Mode) *VC {
 		decls: map[string]string{}, dtByName: map[string]*Sort{}, sortMemo: map[string]*Sort{},
 		oblNames: map[string]int{}, assumptions: map[string]bool{}, havocked: map[string]bool{},
 		callees: map[string]bool{}, inlined: map[string]bool{}, specAxioms: map[string]bool{},
-		pendingSpecs: map[*FuncInfo]bool{}, doneSpecs: map[*FuncInfo]bool{}, defs: map[string]*Term{},
+		pendingSpecs: map[*FuncInfo]bool{}, doneSpecs: map[*FuncInfo]bool{}, defs: map[string]*Term{}, rowCopies: map[string]rowCopyDef{}, specCache: map[string][]*Term{}, wrapFns: map[string]bool{}, boundMemo: map[string]interval{}, varBounds: map[string]interval{},
 	}
 }
 
@@ -413,16 +419,36 @@ func (c *VC) wrap(x *Term, w int, signed bool) *Term {
 		}
 		return intLit(v)
 	}
-	x = c.name("w", x)
-	in := mkAnd(mk("<=", sortBool, intLit(lo), x), mk("<=", sortBool, x, intLit(hi)))
-	var wr *Term
-	if signed {
-		h := pow2(w - 1)
-		wr = mk("-", sortInt, mk("mod", sortInt, mk("+", sortInt, x, intLit(h)), intLit(pow2(w))), intLit(h))
-	} else {
-		wr = mk("mod", sortInt, x, intLit(pow2(w)))
+	if b, ok := c.bounds(x); ok && b.lo.Cmp(lo) >= 0 && b.hi.Cmp(hi) <= 0 {
+		return x
 	}
-	return mkIte(in, x, wr)
+	fn := fmt.Sprintf("wrap_u%d", w)
+	if signed {
+		fn = fmt.Sprintf("wrap_s%d", w)
+	}
+	c.wrapFns[fn] = true
+	return mk(fn, sortInt, x)
+}
+
+func wrapDefs(fns map[string]bool) string {
+	var sb strings.Builder
+	for _, fn := range sortedKeys(fns) {
+		var w int
+		signed := strings.HasPrefix(fn, "wrap_s")
+		fmt.Sscanf(fn[6:], "%d", &w)
+		lo, hi := rangeOf(w, signed)
+		los := lo.String()
+		if lo.Sign() < 0 {
+			los = "(- " + new(big.Int).Neg(lo).String() + ")"
+		}
+		if signed {
+			h := pow2(w - 1)
+			fmt.Fprintf(&sb, "(define-fun %s ((x Int)) Int (ite (and (<= %s x) (<= x %s)) x (- (mod (+ x %s) %s) %s)))\n", fn, los, hi, h, pow2(w), h)
+		} else {
+			fmt.Fprintf(&sb, "(define-fun %s ((x Int)) Int (ite (and (<= %s x) (<= x %s)) x (mod x %s)))\n", fn, los, hi, pow2(w))
+		}
+	}
+	return sb.String()
 }
 
 func (c *VC) inRange(x *Term, t types.Type) *Term {
@@ -486,11 +512,62 @@ func (c *VC) uf(name string, ret *Sort, args ...*Term) *Term {
 
 // binop computes a op b at Go integer type t (operands already have t's sort,
 // except shift counts which are handled by shift()).
+// foldConst evaluates a op b on constants with Go's wrap-around semantics; nil if not foldable.
+func foldConst(op token.Token, av, bv *big.Int, w int, signed bool) *big.Int {
+	norm := func(v *big.Int) *big.Int {
+		m := pow2(w)
+		r := new(big.Int).Mod(v, m)
+		if signed {
+			_, hi := rangeOf(w, true)
+			if r.Cmp(hi) > 0 {
+				r.Sub(r, m)
+			}
+		}
+		return r
+	}
+	a, b := norm(av), norm(bv)
+	r := new(big.Int)
+	switch op {
+	case token.ADD:
+		r.Add(a, b)
+	case token.SUB:
+		r.Sub(a, b)
+	case token.MUL:
+		r.Mul(a, b)
+	case token.QUO:
+		if b.Sign() == 0 {
+			return nil
+		}
+		r.Quo(a, b)
+	case token.REM:
+		if b.Sign() == 0 {
+			return nil
+		}
+		r.Rem(a, b)
+	case token.AND:
+		r.And(new(big.Int).Mod(a, pow2(w)), new(big.Int).Mod(b, pow2(w)))
+	case token.OR:
+		r.Or(new(big.Int).Mod(a, pow2(w)), new(big.Int).Mod(b, pow2(w)))
+	case token.XOR:
+		r.Xor(new(big.Int).Mod(a, pow2(w)), new(big.Int).Mod(b, pow2(w)))
+	case token.AND_NOT:
+		r.AndNot(new(big.Int).Mod(a, pow2(w)), new(big.Int).Mod(b, pow2(w)))
+	default:
+		return nil
+	}
+	return norm(r)
+}
+
 func (c *VC) binop(op token.Token, a, b *Term, t types.Type) *Term {
 	w, signed, ok := intInfo(t)
 	if !ok {
 		// floats and others: uninterpreted
 		return c.uf(fmt.Sprintf("fop_%s_%s", sanitize(op.String()), sanitize(a.Sort.Name)), a.Sort, a, b)
+	}
+	if a.Val != nil && b.Val != nil {
+		if r := foldConst(op, a.Val, b.Val, w, signed); r != nil {
+			return c.numLit(r, t)
+		}
 	}
 	if c.mode == ModeBV {
 		s := bvSort(w)
@@ -586,6 +663,29 @@ func opName(op token.Token) string {
 func (c *VC) shift(op token.Token, a, n *Term, t, nt types.Type) *Term {
 	w, signed, _ := intInfo(t)
 	nw, _, _ := intInfo(nt)
+	if a.Val != nil && n.Val != nil && n.Val.IsInt64() && n.Val.Int64() >= 0 {
+		k := n.Val.Int64()
+		if k > 200 {
+			k = 200
+		}
+		av := new(big.Int).Set(a.Val)
+		if c.mode == ModeBV && signed {
+			_, hi := rangeOf(w, true)
+			if av.Cmp(hi) > 0 {
+				av.Sub(av, pow2(w))
+			}
+		}
+		var r *big.Int
+		if op == token.SHL {
+			r = new(big.Int).Lsh(av, uint(k))
+		} else {
+			r = new(big.Int).Rsh(av, uint(k)) // arithmetic for negatives (floor)
+		}
+		if c.mode == ModeBV {
+			return bvLit(r, w)
+		}
+		return c.wrap(intLit(r), w, signed)
+	}
 	if c.mode == ModeBV {
 		s := bvSort(w)
 		var cnt *Term
@@ -747,6 +847,28 @@ func (c *VC) cmp(op token.Token, a, b *Term, t types.Type) *Term {
 			return tFalse
 		}
 		return mk(o, sortBool, a, b)
+	}
+	if a.Val != nil && b.Val != nil {
+		cm := a.Val.Cmp(b.Val)
+		res := false
+		switch op {
+		case token.LSS:
+			res = cm < 0
+		case token.LEQ:
+			res = cm <= 0
+		case token.GTR:
+			res = cm > 0
+		case token.GEQ:
+			res = cm >= 0
+		case token.EQL:
+			res = cm == 0
+		case token.NEQ:
+			res = cm != 0
+		}
+		if res {
+			return tTrue
+		}
+		return tFalse
 	}
 	switch op {
 	case token.LSS:
@@ -999,6 +1121,9 @@ func (c *VC) query(o *Obligation, allFacts bool) string {
 			if keep[i] {
 				continue
 			}
+			if o.Canary && hasQuant(facts[i]) {
+				continue
+			}
 			hit := allFacts || len(fsyms[i]) == 0
 			for k := range fsyms[i] {
 				if syms[k] {
@@ -1025,6 +1150,7 @@ func (c *VC) query(o *Obligation, allFacts bool) string {
 		}
 		sb.WriteString("))))\n")
 	}
+	sb.WriteString(wrapDefs(c.wrapFns))
 	for _, n := range c.declOrder {
 		if syms[n] {
 			sb.WriteString(c.decls[n])
@@ -1039,6 +1165,9 @@ func (c *VC) query(o *Obligation, allFacts bool) string {
 		}
 	}
 	for _, f := range c.axioms {
+		if o.Canary {
+			continue
+		}
 		sb.WriteString("(assert ")
 		f.write(&sb)
 		sb.WriteString(")\n")
@@ -1060,6 +1189,18 @@ func (c *VC) query(o *Obligation, allFacts bool) string {
 	}
 	sb.WriteString("(check-sat)\n")
 	return sb.String()
+}
+
+func hasQuant(t *Term) bool {
+	if t.Op == "forall" || t.Op == "exists" {
+		return true
+	}
+	for _, a := range t.Args {
+		if hasQuant(a) {
+			return true
+		}
+	}
+	return false
 }
 
 func (c *VC) isUserSym(k string) bool {
